@@ -357,12 +357,12 @@ func c03Sequence(c *rep.Ctx, calls []addCall, withFS bool) {
 		c.Violation("C03|add-identity", fmt.Sprintf("calls=%v: %s", calls, ident), size, mk("identity"))
 	}
 	doc := enum.SpellForest(model.Forest{mroot}, enum.Canonical)
-	ops := c03Ops
+	ops := append([]string{}, c03Ops...)
 	if len(calls) <= 4 {
-		ops = append(append([]string{}, c03Ops...), c03Matrix...)
+		ops = append(ops, c03Matrix...)
 	}
 	if withFS {
-		ops = append(append([]string{}, c03Ops...), c03FSOps...)
+		ops = append(ops, c03FSOps...)
 	}
 	for _, op := range ops {
 		a, pa := c03Op(op, root, doc, false)
